@@ -1250,7 +1250,7 @@ def run(ctx):
             plan = [(1, 7, False, 3, 1), (2, 7, False, 3, 1), (3, 6, False, 4, 1),
                     (1, 6, True, 3, 1), (2, 5, True, 3, 1), (3, 5, True, 4, 1)]
         exh_info = []
-        ep_plan = [(1, 2, 3), (2, 3, 2)] if tier == "quick" else [(1, 3, 4), (2, 3, 3), (3, 3, 3)]
+        ep_plan = [(1, 2, 3), (2, 3, 2)] if tier == "quick" else [(1, 3, 3), (1, 2, 4), (2, 3, 3), (3, 2, 3)]
         for cap, pre, post in ep_plan:
             leaves = gen_epochs(drv, cap, pre, post)
             exh_info.append(dict(cap=cap, stream="epochs", closing_prefix_depth=pre, continuation_depth=post, histories=len(leaves)))
